@@ -26,6 +26,16 @@ CLAIMED = {
              "DenR.v/Mat.v semantics; floating point and batch-pointwise-ness only exercised numerically.",
         technique="Coq proof (field + relation elimination) over regenerated matrices and symbolically executed NumPy code",
         design="6/C08"),
+    "C12": dict(
+        text="Coq theorems over trees regenerated from /repo each run: EnergyDependentWidth.evaluate() equals Gamma0 at s=m0^2 wherever defined, "
+             "for an uninterpreted phase-space function and for the five library classes as opaque nodes (hence every phase-space factor, "
+             "form factor and L); the Blatt-Weisskopf polynomial path for L=0..10 is defined on z>=0, equals 1 at z=1, is bounded, is z^L times a "
+             "continuous residual positive at 0, and equals the Hankel-function definition for z>0; builder expressions are the public lineshape "
+             "functions for all 17 flag x phase-space combinations, with the tabulated defaults.",
+        note="Coq kernel; stdlib Reals axioms (+Coquelicot's use of classic); ser.py; DenR.v/DenC.v semantics; Hankel definition transcribed by hand; "
+             "symbolic-L Hankel path only compared numerically.",
+        technique="Coq proof over regenerated trees with uninterpreted function symbols; certificate-checked rational forms",
+        design="6/C12"),
 }
 
 NOT_YET = "not built yet in this session (design in DESIGN.md section 6); no check is registered, nothing is claimed"
